@@ -1,5 +1,6 @@
 (* Model of the process / thread / sample bookkeeping of the perf.data converter with default options
-   (no --reuse-threads, no --per-cpu-threads, no context-switch data):
+   (no --reuse-threads, no --per-cpu-threads; CONTEXT_SWITCH records only touch the process / thread tables - without
+   sched_switch samples there is no off-CPU stack, so they add no samples):
      samply/src/import/perf.rs:190-266 (record dispatch), linux_shared/converter.rs:238-325 (main-event samples), 743-836 + 1308-1353
      + 1672-1694 (mmap: which entries it touches), 956-1105 (fork, exit, comm, exec), linux_shared/processes.rs, process.rs,
      process_threads.rs, thread.rs, shared/unresolved_samples.rs (per-process sample buffers), processes.rs:245-270 (finish),
@@ -15,7 +16,8 @@ Inductive record :=
 | RExit (pid tid ts : N)
 | RComm (pid tid name : N) (is_exec : bool) (ts : N)      (* ts = 0: the record carries no time *)
 | RSample (pid tid ts : N)
-| RMmap (pid tid : N).                                     (* an executable file mapping with a readable path *)
+| RMmap (pid tid : N)                                      (* an executable file mapping with a readable path *)
+| RSwitch (pid tid : N).                                   (* a CONTEXT_SWITCH record (in or out) *)
 
 (* ---- the profile being built ---- *)
 Inductive pname := NGiven (n : N) | NPid (pid : N).       (* "<pid>" *)
@@ -204,6 +206,10 @@ Section Converter.
         (* add_mmap_marker touches process and thread unless no sample has moved the clock yet; add_module_to_process touches the process *)
         let '(s1, p) := get_by_pid s pid in
         if cur_time s =? origin then s1 else fst (fst (get_thread_by_tid s1 pid p tid))
+    | RSwitch pid tid =>
+        (* handle_context_switch: the idle thread is ignored; otherwise the process and the thread are looked up (and created) *)
+        if tid =? 0 then s
+        else let '(s1, p) := get_by_pid s pid in fst (fst (get_thread_by_tid s1 pid p tid))
     end.
 
   Definition run (rs : list record) : cstate := fold_left step rs init.
